@@ -112,6 +112,15 @@ func (view *View) GroupBy(ctx context.Context, scope *ReferenceScope, clause par
 }
 
 func (view *View) group(ctx context.Context, scope *ReferenceScope, items []parser.QueryExpression) error {
+	if view.FieldLen() < 1 {
+		// A grouped record keeps the number of its rows in the length of its cells,
+		// so a view without columns (an empty file) gets an anonymous one.
+		view.Header = append(view.Header, HeaderField{})
+		for i := range view.RecordSet {
+			view.RecordSet[i] = append(view.RecordSet[i], NewCell(value.NewNull()))
+		}
+	}
+
 	if items == nil {
 		return view.groupAll(ctx, scope.Tx.Flags)
 	}
